@@ -1851,6 +1851,14 @@ def wide(prop):
                 generics.sort()
                 out.append(ord_program(pid(), "enum", "E", variants, md, generics, nv, "wide enum %d variants mode=%s" % (nv, md)))
     if prop == "C05":
+        # enums with explicit discriminants (mixed with implicit ones): variant tags must stay distinct
+        vs = [Variant("V0", "unit", [], discr=1), Variant("V1", "unit", []), Variant("V2", "unit", [], discr=0)]
+        out.append(Program(pid(), "enum", "E", vs, ["Hash"], focus={"Hash"}, note="unit enum with discriminants 1, (2), 0"))
+        vs = [Variant("V0", "tuple", [hash_field(None, "n", 0, 0, 0)], discr=2), Variant("V1", "named", [hash_field("a", "n", 1, 0, 0)], discr=7),
+              Variant("V2", "tuple", [hash_field(None, "n", 2, 0, 0)]), Variant("V3", "unit", [], discr=1)]
+        out.append(Program(pid(), "enum", "E", vs, ["Hash"], focus={"Hash"}, repr_="u8", note="repr(u8) enum with discriminants 2, 7, (8), 1"))
+        vs = [Variant("V0", "unit", [], discr=-1), Variant("V1", "tuple", [hash_field(None, "m", 1, 0, 0)]), Variant("V2", "unit", [])]
+        out.append(Program(pid(), "enum", "E", vs, ["Hash"], focus={"Hash"}, repr_="i8", note="repr(i8) enum with discriminants -1, (0), (1)"))
         for n in (4, 5):
             for shape in ("named", "tuple"):
                 for assign in _wide_assigns(n, "nim"):
